@@ -1092,6 +1092,15 @@ sexp sexp_equalp_bound (sexp ctx, sexp self, sexp_sint_t n, sexp a, sexp b, sexp
   if (sexp_pointer_tag(a) == SEXP_FLONUM)
     return sexp_flonum_eqv(a, b) ? bound : SEXP_FALSE;
 #endif
+#if !SEXP_USE_PACKED_STRINGS
+  /* compare the strings' own bytes: the byte store may be larger or */
+  /* shared at a different offset (utf8->string!) */
+  if (sexp_pointer_tag(a) == SEXP_STRING)
+    return ((sexp_string_size(a) == sexp_string_size(b))
+            && !memcmp(sexp_string_data(a), sexp_string_data(b),
+                       sexp_string_size(a)))
+      ? bound : SEXP_FALSE;
+#endif
   /* check limits */
   if (sexp_unbox_fixnum(bound) < 0 || sexp_unbox_fixnum(depth) < 0)
     return bound;
